@@ -30,6 +30,7 @@ def load_props():
     return mod
 
 
+JOB_TIMEOUT_S = {'quick': 420, 'thorough': 3000}
 _WORLDS = {}
 
 
@@ -66,6 +67,15 @@ def job(args):
     import z3
     t0 = time.time()
     res = {'key': key, 'case': case, 'obligations': [], 'unsupported': None, 'paths': 0, 'error': None}
+    import signal
+
+    class JobTimeout(Exception):
+        pass
+
+    def on_alarm(signum, frame):
+        raise JobTimeout()
+    signal.signal(signal.SIGALRM, on_alarm)
+    signal.alarm(JOB_TIMEOUT_S[tier])
     try:
         w = get_world(files)
         c = w.contracts[key]
@@ -75,7 +85,7 @@ def job(args):
             spec = ('contract', [], c['ensures'], c['raises'])
         else:
             lem = c['lemmas'][case]
-            spec = (case, lem.get('requires', []), lem.get('ensures', {}), lem.get('raises', 'never'))
+            spec = (case, lem.get('requires', []), lem.get('ensures', {}), lem.get('raises', 'never'), 3000, lem.get('ghost_params'))
         w.exclusions = exclusions or {}
         try:
             obls, paths, stats = w.verify_case(c, *spec)
@@ -111,8 +121,13 @@ def job(args):
             # one rendered formula as a sample
             o = next(iter(seen.values()))
             res['sample_formula'] = (str(z3.And(*o.pc))[:600] + ' ==> ' + str(o.goal)[:400]) if o.pc else str(o.goal)[:600]
+    except JobTimeout:
+        res['unsupported'] = f'exploration/solving exceeded {JOB_TIMEOUT_S[tier]} s'
+        res['obligations'] = []
     except Exception as e:     # checker failure, never a verdict
         res['error'] = f'{type(e).__name__}: {e}\n{traceback.format_exc()[-2000:]}'
+    finally:
+        signal.alarm(0)
     res['wall'] = time.time() - t0
     return res
 
@@ -172,8 +187,12 @@ def run_property(a, P, props, seed, t0):
     contracts = [c for c in world.contracts.values() if prop in c.get('serves', [])]
     if a.only:
         contracts = [c for c in contracts if a.only in c['key']]
+    bounded_only = []
     for c in contracts:
         if c.get('trusted'):
+            continue
+        if c.get('vc') is False:
+            bounded_only.append(f"{c['file']}::{c['func']} (contract {c['key']})")
             continue
         jobs.append((files, c['key'], 'contract', a.tier, exclusions.get(c['key'])))
         for lname in c.get('lemmas', {}):
@@ -190,6 +209,8 @@ def run_property(a, P, props, seed, t0):
         if a.tier == 'quick' and b.get('thorough_only'):
             continue
         bounded.append(run_bounded(b, a.tier, seed))
+    P = dict(P)
+    P['bounded_only'] = bounded_only
     return report(a, P, props, results, bounded, known, seed, t0, world)
 
 
@@ -205,6 +226,10 @@ def report(a, P, props, results, bounded, known, seed, t0, world):
     prop = a.prop
     os.makedirs(os.path.join(VERIF, 'evidence'), exist_ok=True)
     os.makedirs(os.path.join(VERIF, 'replays'), exist_ok=True)
+    if not a.only:
+        import glob
+        for old in glob.glob(os.path.join(VERIF, 'replays', f'{prop}-*.json')):
+            os.unlink(old)
     base_path = os.path.join(VERIF, 'baseline_obligations.json')
     baseline = {}
     if os.path.exists(base_path):
@@ -315,6 +340,7 @@ def report(a, P, props, results, bounded, known, seed, t0, world):
         'discharged_by_backend': by_solver, 'solver_seconds': round(solver_time, 2),
         'samples': samples or [{'note': 'no obligation generated'}],
         'bounded': bounded_cov,
+        'bounded_only_functions': P.get('bounded_only', []),
         'undecided': undecided[:40], 'crashes': crashes[:10],
         'uncovered_clauses': P.get('uncovered', []),
         'known_findings_open': [k['what'] for k in open_known],
